@@ -45,13 +45,6 @@ Qed.
 Lemma has_dot_append : forall a s, has_dot (String.append a (sdot s)) = true.
 Proof. induction a as [|c a IH]; intros; simpl; [reflexivity | rewrite IH; apply orb_true_r]. Qed.
 
-(* the text before the first '.' : parts[0] of key.split('.') *)
-Fixpoint before_dot (s : string) : string :=
-  match s with
-  | EmptyString => EmptyString
-  | String c r => if Ascii.eqb c dot then EmptyString else String c (before_dot r)
-  end.
-
 (* InputParameterMap.get / remove look at parts[0] and recurse on the text
    after the first '.', or use the whole key when it has no '.'; that visits
    exactly the segments. *)
@@ -80,6 +73,90 @@ Qed.
 
 Lemma eqb_false_sym : forall a b : string, String.eqb a b = false -> String.eqb b a = false.
 Proof. intros a b H. apply String.eqb_neq in H. apply String.eqb_neq. congruence. Qed.
+
+(* ================================================================== the transcribed get / remove = the walk over segments *)
+Lemma segments_nonempty : forall s, exists a r, segments s = a :: r.
+Proof.
+  induction s as [|c s IH]; simpl; [eauto|].
+  destruct (Ascii.eqb c dot); [eauto|]. destruct IH as (a & r & ->). eauto.
+Qed.
+
+Lemma after_dot_length : forall s, has_dot s = true -> (String.length (after_dot s) < String.length s)%nat.
+Proof.
+  induction s as [|c s IH]; simpl; intros H; [discriminate|].
+  destruct (Ascii.eqb c dot); simpl in H; [lia | specialize (IH H); lia].
+Qed.
+
+Lemma get_lit_eq : forall fuel m key, (String.length key < fuel)%nat -> get_lit fuel m key = get m key.
+Proof.
+  induction fuel as [|fuel IH]; intros m key H; [lia|]. simpl. unfold get.
+  destruct m as [h ro c d v|h ch].
+  - destruct (segments_nonempty key) as (a & r & ->). reflexivity.
+  - destruct (has_dot key) eqn:Hd.
+    + rewrite (segments_first_rest key Hd). simpl.
+      destruct (find_child (before_dot key) ch) as [c|]; [|reflexivity].
+      destruct c as [h' ro' c' d' v'|h' ch'].
+      * destruct (segments_nonempty (after_dot key)) as (a & r & ->). reflexivity.
+      * rewrite IH by (pose proof (after_dot_length key Hd); lia). reflexivity.
+    + rewrite (segments_nodot key Hd). simpl. destruct (find_child key ch); reflexivity.
+Qed.
+
+Lemma remove_lit_eq : forall fuel m key, (String.length key < fuel)%nat -> remove_lit fuel m key = remove_at (segments key) m.
+Proof.
+  induction fuel as [|fuel IH]; intros m key H; [lia|]. simpl.
+  destruct m as [h ro c d v|h ch].
+  - destruct (segments_nonempty key) as (a & r & ->). reflexivity.
+  - destruct (has_dot key) eqn:Hd.
+    + rewrite (segments_first_rest key Hd).
+      destruct (segments_nonempty (after_dot key)) as (a & r & Hs).
+      simpl. rewrite Hs.
+      destruct (find_child (before_dot key) ch) as [c|]; [|reflexivity].
+      destruct c as [h' ro' c' d' v'|h' ch'].
+      * reflexivity.
+      * rewrite IH by (pose proof (after_dot_length key Hd); lia). rewrite Hs. reflexivity.
+    + rewrite (segments_nodot key Hd). simpl. destruct (find_child key ch); reflexivity.
+Qed.
+
+Lemma modify_lit_eq : forall fuel f m key, (String.length key < fuel)%nat -> modify_lit fuel f m key = modify (segments key) f m.
+Proof.
+  induction fuel as [|fuel IH]; intros f m key H; [lia|]. simpl.
+  destruct m as [h ro c d v|h ch].
+  - destruct (segments_nonempty key) as (a & r & ->). reflexivity.
+  - destruct (has_dot key) eqn:Hd.
+    + rewrite (segments_first_rest key Hd).
+      destruct (segments_nonempty (after_dot key)) as (a & r & Hs).
+      simpl. rewrite Hs.
+      destruct (find_child (before_dot key) ch) as [c|]; [|reflexivity].
+      destruct c as [h' ro' c' d' v'|h' ch'].
+      * reflexivity.
+      * rewrite IH by (pose proof (after_dot_length key Hd); lia). rewrite Hs. reflexivity.
+    + rewrite (segments_nodot key Hd). simpl. destruct (find_child key ch); reflexivity.
+Qed.
+
+Lemma py_get_eq : forall m key, py_get m key = get m key.
+Proof. intros. apply get_lit_eq. unfold fuel_for. lia. Qed.
+
+Lemma py_remove_eq : forall m key, py_remove m key = remove_at (segments key) m.
+Proof. intros. apply remove_lit_eq. unfold fuel_for. lia. Qed.
+
+Lemma py_modify_eq : forall f m key, py_modify f m key = modify (segments key) f m.
+Proof. intros. apply modify_lit_eq. unfold fuel_for. lia. Qed.
+
+Lemma py_parent_eq : forall root pp,
+  py_parent root pp = match node_at root (psegs pp) with Some p => Val p | None => Raise KeyError end.
+Proof. intros root [k|]; simpl; [apply py_get_eq | reflexivity]. Qed.
+
+Lemma py_modify_at_eq : forall pp f root, py_modify_at pp f root = modify (psegs pp) f root.
+Proof. intros [k|] f root; simpl; [apply py_modify_eq | reflexivity]. Qed.
+
+(* the transcription and the walk over segments are the same function *)
+Theorem step_root_lit_eq : forall q n root o, step_root_lit q n root o = step_root q n root o.
+Proof.
+  intros q n root o. destruct o; unfold step_root_lit, step_root;
+    rewrite ?py_get_eq, ?py_remove_eq, ?py_modify_eq, ?py_parent_eq, ?py_modify_at_eq; try reflexivity.
+  - destruct (node_at root (psegs pp)); reflexivity.
+  - destruct (node_at root (psegs pp)); reflexivity.
+Qed.
 
 (* ================================================================== numbers / validity *)
 (* set_value accepts a value exactly when the parameter is writable and the
@@ -633,6 +710,7 @@ Qed.
 Lemma base_checks_key_ok : forall s par, base_checks s par = None -> key_ok (s_key s).
 Proof.
   unfold base_checks, key_ok. intros s par H.
+  destruct (f_key (s_flaws s)); [discriminate|].
   destruct (String.eqb (s_key s) EmptyString) eqn:E1; [discriminate|].
   destruct (has_dot (s_key s)) eqn:E2; [discriminate|].
   split; [apply String.eqb_neq, E1 | reflexivity].
@@ -695,7 +773,7 @@ Lemma step_root_wf : forall n root o, wf n root -> wf (S n) (fst (step_root repa
 Proof.
   intros n root o Hwf.
   assert (Hm : wf (S n) root) by (eapply wf_mono; [|exact Hwf]; lia).
-  destruct o as [path v|pp s|pp s|path|path|path v|path]; simpl.
+  destruct o as [path v|pp s|pp s|path|path|path v|path|path]; simpl.
   - destruct (modify (segments path) (set_value repaired v) root) as [r'|e] eqn:E; simpl; [|exact Hm].
     eapply modify_wf in E; [apply E | | exact Hwf |]; [lia|].
     intros x x' Hx Hs. eapply set_value_wf; [|exact Hx|exact Hs]. lia.
@@ -722,13 +800,14 @@ Proof.
     eapply modify_wf in E; [apply E | | exact Hwf |]; [lia|].
     intros x x' Hx Hs. eapply set_value_wf; [|exact Hx|exact Hs]. lia.
   - destruct (get root path) as [[? ? ? ? ?|? ?]|e]; simpl; exact Hm.
+  - destruct (get root path) as [[? ? ? ? ?|? ?]|e]; simpl; exact Hm.
 Qed.
 
 Definition wf_state (st : state) : Prop := wf (st_next st) (st_root st).
 
 Lemma step_wf : forall st o, wf_state st -> wf_state (fst (step repaired st o)).
 Proof.
-  unfold wf_state, step. intros st o H.
+  unfold wf_state, step. intros st o H. rewrite step_root_lit_eq.
   pose proof (step_root_wf (st_next st) (st_root st) o H) as H'.
   destruct (step_root repaired (st_next st) (st_root st) o) as [r' out]. simpl in *. exact H'.
 Qed.
@@ -758,7 +837,7 @@ Qed.
 Theorem rejected_unchanged_root : forall n root o e,
   snd (step_root repaired n root o) = ORaise e -> fst (step_root repaired n root o) = root.
 Proof.
-  intros n root o e. destruct o as [path v|pp s|pp s|path|path|path v|path]; simpl;
+  intros n root o e. destruct o as [path v|pp s|pp s|path|path|path v|path|path]; simpl;
     repeat match goal with
            | |- context [match ?x with _ => _ end] => destruct x eqn:?; simpl
            end; intros H; try discriminate H; reflexivity.
@@ -767,7 +846,7 @@ Qed.
 Theorem rejected_unchanged : forall st o e,
   snd (step repaired st o) = ORaise e -> st_root (fst (step repaired st o)) = st_root st.
 Proof.
-  intros st o e. unfold step.
+  intros st o e. unfold step. rewrite step_root_lit_eq.
   pose proof (rejected_unchanged_root (st_next st) (st_root st) o e) as H.
   destruct (step_root repaired (st_next st) (st_root st) o) as [r' out]. simpl in *. exact H.
 Qed.
@@ -840,7 +919,7 @@ Proof.
     - apply Hold. eapply nodes_trans; eauto.
     - right. rewrite node_of_nodes in Hs. destruct Hs as [Hs|[]].
       unfold node_of in Hs. destruct (s_kind s); inversion Hs; subst; auto. }
-  destruct o as [path v|pp s|pp s|path|path|path v|path]; simpl in Hin.
+  destruct o as [path v|pp s|pp s|path|path|path v|path|path]; simpl in Hin.
   - destruct (modify (segments path) (set_value repaired v) root) as [r'|e] eqn:E; simpl in Hin; eauto.
   - destruct (node_at root (psegs pp)) as [par|]; simpl in Hin; auto.
     destruct (ctor_checks repaired s (Some par)); simpl in Hin; auto.
@@ -853,13 +932,14 @@ Proof.
   - destruct (get root path) as [p|e]; simpl in Hin; auto.
   - destruct (modify (segments path) (set_value repaired v) root) as [r'|e] eqn:E; simpl in Hin; eauto.
   - destruct (get root path) as [[? ? ? ? ?|? ?]|e]; simpl in Hin; auto.
+  - destruct (get root path) as [[? ? ? ? ?|? ?]|e]; simpl in Hin; auto.
 Qed.
 
 Lemma step_root_eq : forall st o, st_root (fst (step repaired st o)) = fst (step_root repaired (st_next st) (st_root st) o).
-Proof. intros. unfold step. destruct (step_root repaired (st_next st) (st_root st) o). reflexivity. Qed.
+Proof. intros. unfold step. rewrite step_root_lit_eq. destruct (step_root repaired (st_next st) (st_root st) o). reflexivity. Qed.
 
 Lemma step_next : forall q st o, st_next (fst (step q st o)) = S (st_next st).
-Proof. intros. unfold step. destruct (step_root q (st_next st) (st_root st) o). reflexivity. Qed.
+Proof. intros. unfold step. destruct (step_root_lit q (st_next st) (st_root st) o). reflexivity. Qed.
 
 Lemma run_next : forall q ops st, st_next (run q st ops) = (List.length ops + st_next st)%nat.
 Proof.
@@ -1242,7 +1322,7 @@ Proof. intros. eapply rejected_unchanged_root; eauto. Qed.
    67d3f71, bc11b41, a3d4ad7) and the correspondence check runs [repaired]. *)
 Open Scope string_scope.
 
-Definition wit_str_spec : pspec := mkSpec "s" 1 true SStr (VStr "a").
+Definition wit_str_spec : pspec := mkSpec "s" 1 true SStr (VStr "a") no_flaws.
 
 Lemma pinned_read_only_str_changes :
   exists ops h c d v,
@@ -1265,7 +1345,7 @@ Proof.
   vm_compute. auto.
 Qed.
 
-Definition wit_bad_spec : pspec := mkSpec "x" 1 false (SInt (NI 0) (NI 10)) (VInt 50).
+Definition wit_bad_spec : pspec := mkSpec "x" 1 false (SInt (NI 0) (NI 10)) (VInt 50) no_flaws.
 
 Lemma pinned_failed_construction_registered :
   exists n root pp s e,
